@@ -9,13 +9,30 @@ PID = "C14"
 
 def observe(rec):
     """all accessors of a real frame of this size, projected to segment names; returns mismatches"""
+    try:
+        return _observe(rec)
+    except Exception as e:  # noqa
+        return [{"what": "an accessor of a frame of legal size raised " + type(e).__name__ + " where nothing may raise"}]
+
+
+def _observe(rec):
     from cspuz import Solver, BoolGridFrame, graph as cg
     from cspuz.grid_frame import BoolInnerGridFrame
     h, w = rec["h"], rec["w"]
     s = Solver()
-    fr = BoolGridFrame(s, h, w)
+    # how the frame gets its edge arrays: fresh ones (0), both supplied (1), only horizontal= (2), only vertical= (3)
+    mode = rec.get("mode", 0)
+    kw = {}
+    if mode in (1, 2):
+        kw["horizontal"] = s.bool_array((h + 1, w))
+    if mode in (1, 3):
+        kw["vertical"] = s.bool_array((h, w + 1))
+    fr = BoolGridFrame(s, h, w, **kw)
     name = {}
     bad = []
+    for k, arr in kw.items():
+        if getattr(fr, k) is not arr:
+            return [{"what": "the array supplied as " + k + "= is not the one the frame uses"}]
     if tuple(fr.horizontal.shape) != (h + 1, w) or tuple(fr.vertical.shape) != (h, w + 1):
         return [{"what": "shape of horizontal/vertical", "got": [fr.horizontal.shape, fr.vertical.shape]}]
     for y in range(h + 1):
@@ -56,7 +73,15 @@ def observe(rec):
                     got = sorted(nm(e) for e in v) if st == "ok" else st
                     if got != sorted(q["segs"]):
                         bad.append({"what": kind, "y": q["y"], "x": q["x"], "expected": sorted(q["segs"]), "got": got})
-    ae = [nm(e) for e in fr.all_edges()]
+    aearr = fr.all_edges()
+    n_edges = (h + 1) * w + h * (w + 1)
+    try:      # all_edges() is an array over ALL edges: its shape, and what an element-wise operator covers
+        if tuple(aearr.shape) != (n_edges,) or len(aearr) != n_edges or len((~aearr).data) != n_edges or tuple((~aearr).shape) != (n_edges,):
+            bad.append({"what": "all_edges() as an array (shape / element-wise operator)", "expected": n_edges,
+                        "got": [list(aearr.shape), len(aearr), len((~aearr).data)]})
+    except Exception as e:  # noqa
+        bad.append({"what": "all_edges() as an array (shape / element-wise operator)", "got": "raised " + type(e).__name__})
+    ae = [nm(e) for e in aearr]
     it = [nm(e) for e in fr]
     if ae != rec["all_edges"] or it != ae:
         bad.append({"what": "all_edges / iteration order", "expected": rec["all_edges"][:40], "got": [ae[:40], it[:40]]})
@@ -94,14 +119,18 @@ def run(tier, seed):
     maxdim = 3 if tier == "quick" else 5
     res = run_tlc("MC_Frame", "MC_Frame", workdir=chk.dir, env={"MAXDIM": maxdim}, timeout=900)
     chk.add_tlc(res)
+    recs4 = []
     for rec in sorted(res.records, key=lambda r: (r["h"], r["w"])):
+        for mode in ((0, 1, 2, 3) if rec["h"] <= 5 and rec["w"] <= 5 else (0,)):
+            recs4.append(dict(rec, mode=mode))
+    for rec in recs4:
         nq = len(rec["doubled"]) + 2 * len(rec["cells"]) + 2 * len(rec["points"]) + 4
         for i in range(nq):
-            chk.note_case(f"{rec['h']}x{rec['w']}/{i}", rec["h"] * rec["w"] >= 1)
+            chk.note_case(f"{rec['h']}x{rec['w']}/{rec['mode']}/{i}", rec["h"] * rec["w"] >= 1)
         chk.traces += 1
         for b in observe(rec):
             chk.violation({"accessor": b["what"]}, f"BoolGridFrame {rec['h']}x{rec['w']}: {b['what']}",
-                          dict(b, h=rec["h"], w=rec["w"]))
+                          dict(b, h=rec["h"], w=rec["w"], arrays_supplied=["none", "both", "horizontal only", "vertical only"][rec["mode"]]))
     r = next(r for r in res.records if r["h"] == 1 and r["w"] == 2)
     chk.sample({"h": 1, "w": 2, "all_edges": r["all_edges"], "lattice": r["lattice"][:4], "doubled": r["doubled"][:4]})
     chk.rule = "case = (frame size, accessor, coordinate); non-trivial = frame with at least one cell"
